@@ -21,7 +21,17 @@ C (spec on impl, the property statement, judged on the implementation alone):
   (iii) every exception event is answered (response or close) in the same read; the loop still
         dispatches a probe event afterwards; nothing escapes the loop;
   (iv)  after disconnect(sock) and quiescence neither `_buffers` nor `_clients` has an entry for
-        the socket; both tables are empty at the end of the script.
+        the socket; both tables are empty at the end of the script;
+  (v)   unambiguously malformed framing (`strict_head`, an RFC 7230 reading of the byte stream written without
+        looking at the implementation; no model involved): a request without Transfer-Encoding whose
+        Content-Length field value is not a non-negative decimal integer (3.3.2) or that carries Content-Length
+        values that differ (3.3.3 (4)) is not dispatched and not answered 2xx in the read that completes its
+        header block - `malformed-dispatched(content-length)`; and no later read on that connection (the bytes
+        of the announced body) produces a request event or a response of its own - `body-parsed-as-request`.
+        Only messages whose start is known (first on the connection, or after strictly framed messages that
+        ended at a read boundary) and whose header block is plain (printable ASCII, no escapes, no folding,
+        token names) are judged; values Python's int() takes (sign, `1_0`) and repeated identical values are
+        not judged (documented leniency).
 B (correspondence): CV.Http14.step (machine `http14`) on the same script, lexers and their Python
 exceptions instantiated by the implementation's own leaf functions evaluated separately on the
 candidate byte strings: outcome kind, exit, status, request seen by the handler, table membership
@@ -248,7 +258,119 @@ def last_exit(recs, ident):
     return k
 
 
-def judge(case, recs, final, one_answers, idx):
+# ---------------------------------------------------------------------------------------
+# C (v): framing that RFC 7230 calls invalid, judged on the byte stream alone
+# ---------------------------------------------------------------------------------------
+
+TOKEN_RE = re.compile(rb"^[!#$%&'*+\-.^_`|~0-9A-Za-z]+$")
+DEC_RE = re.compile(rb'^[0-9]+$')
+PYINT_RE = re.compile(rb'^[+-]?[0-9]+(_[0-9]+)*$')      # what int() takes of printable ASCII (after stripping)
+
+
+def strict_head(buf):
+    """
+    RFC 7230 reading of the start of a request stream.  Deliberately narrow: everything that is not a plain header
+    block is `unknown` (= not judged).
+    -> ('more',)                          no complete header block yet
+       ('unknown', why)
+       ('ok', head_len, body_len)         no Content-Length (0) or one decimal value
+       ('badcl', head_len, kind, values)  kind = non-decimal | conflicting
+    """
+    j = buf.find(CRLF2)
+    if j < 0:
+        return ('more',)
+    head = buf[:j]
+    lines = head.split(CRLF)
+    if not lines[0]:
+        return ('unknown', 'empty first line')
+    for ln in lines:
+        if any(c != 9 and not 0x20 <= c <= 0x7e for c in ln):
+            return ('unknown', 'control or high byte')
+        if b'\\' in ln:
+            return ('unknown', 'backslash (the parser un-escapes)')
+    clens = []
+    for ln in lines[1:]:
+        name, colon, value = ln.partition(b':')
+        if not colon or not TOKEN_RE.match(name):
+            return ('unknown', 'header line is not token ":" value')
+        lname = name.lower()
+        if lname == b'transfer-encoding':
+            return ('unknown', 'Transfer-Encoding present (3.3.3 (3) applies)')
+        if lname == b'content-length':
+            clens.append(value.strip(b' \t'))
+    if not clens:
+        return ('ok', j + 4, 0)
+    members = [m.strip(b' \t') for v in clens for m in v.split(b',')]
+    if any(PYINT_RE.match(m) and not DEC_RE.match(m) for m in members):
+        return ('unknown', 'signed / underscored value (int() takes it; documented leniency)')
+    if all(DEC_RE.match(m) for m in members):
+        if len({int(m) for m in members}) > 1:
+            return ('badcl', j + 4, 'conflicting', clens)
+        if len(members) > 1:
+            return ('unknown', 'repeated identical values (a recipient may collapse them)')
+        return ('ok', j + 4, int(members[0]))
+    return ('badcl', j + 4, 'non-decimal', clens)
+
+
+def framing_verdicts(recs, notes=None):
+    """clause (v) -> list of (signature, what); `notes` collects (kind, delivery) of every judged message"""
+    v = []
+    st = {}
+    for i, r in enumerate(recs):
+        s = st.setdefault(r['sock'], {'mode': 'sync', 'buf': b''})
+        if r['op'] == 'd':
+            st[r['sock']] = {'mode': 'sync', 'buf': b''}
+            continue
+        if r.get('kind') in ('late', 'crash', None) or 'data' not in r:
+            if r.get('disc'):
+                st[r['sock']] = {'mode': 'sync', 'buf': b''}
+            continue
+        active = bool(r['reqs'] or r.get('wrote'))
+        if s['mode'] == 'poisoned':
+            if active:
+                what = ('a request event' if r['reqs'] else 'a response') + (f" ({r['status']})" if r.get('status') else '')
+                v.append(('body-parsed-as-request',
+                          f"read #{i} {r['data'][:60]!r}: bytes that follow a message with invalid framing "
+                          f"(Content-Length {s['values']}, {s['kind']}, header block completed in read #{s['at']}) "
+                          f"produced {what} of their own"))
+                s['mode'] = 'lost'
+            elif notes is not None:
+                notes.append(('later-read', r['kind']))
+        elif s['mode'] == 'sync':
+            s['buf'] += r['data']
+            f = strict_head(s['buf'])
+            if f[0] == 'more':
+                if r['kind'] != 'wait':
+                    s['mode'] = 'lost'
+            elif f[0] == 'unknown':
+                s['mode'] = 'lost'
+            elif f[0] == 'ok':
+                total = f[1] + f[2]
+                if len(s['buf']) == total and r['kind'] != 'wait':
+                    s['buf'] = b''
+                elif len(s['buf']) < total and r['kind'] == 'wait':
+                    pass
+                else:
+                    s['mode'] = 'lost'
+            else:
+                _tag, hl, kind, values = f
+                values = [x.decode('latin1') for x in values]
+                if notes is not None:
+                    notes.append((kind, 'header block ends the read' if len(s['buf']) == hl else 'body bytes in the same read'))
+                st2 = r.get('status')
+                if r['reqs'] or (st2 is not None and 200 <= st2 < 300):
+                    v.append(('malformed-dispatched(content-length)',
+                              f"read #{i} {r['data'][:60]!r}: request with invalid framing (Content-Length {values}: {kind}; "
+                              f"RFC 7230 3.3.2 / 3.3.3 (4)) was "
+                              + ('dispatched as a request event' if r['reqs'] else 'not rejected')
+                              + (f' and answered {st2}' if st2 is not None else '')))
+                s.update(mode='poisoned', kind=kind, values=values, at=i)
+        if r.get('disc'):
+            st[r['sock']] = {'mode': 'sync', 'buf': b''}
+    return v
+
+
+def judge(case, recs, final, one_answers, idx, notes=None):
     """-> list of (signature, what)"""
     v = []
     beh = case['beh']
@@ -295,6 +417,7 @@ def judge(case, recs, final, one_answers, idx):
             v.append(('request-after-reject', f'{tag}: request dispatched and the component answered {r["status"]}'))
         if r['errors'] and not r.get('wrote') and not r['nclose']:
             v.append((f"unhandled({r['errors'][0][0]})", f'{tag}: exception event {r["errors"][0]} without response or close'))
+    v.extend(framing_verdicts(recs, notes))
     if not final['alive']:
         v.append(('loop-dead', 'the probe event fired after the script was not dispatched'))
     for i, r in enumerate(recs):
@@ -549,7 +672,10 @@ def evaluate(ctx, cases, shrink=True):
     answers = ctx.driver.batch('http14', [ops for ops, _ in spec_batches])
     viol_cases = []
     for (case, recs, final), (ops, idx), ans in zip(runs, spec_batches, answers):
-        vs = judge(case, recs, final, ans, idx)
+        notes = []
+        vs = judge(case, recs, final, ans, idx, notes)
+        for kind, how in notes:
+            ctx.count('framing_oracle', f'{kind}: {how}')
         if vs:
             viol_cases.append((case, vs))
     for case, vs in viol_cases:
@@ -649,7 +775,8 @@ def close_script(steps):
 
 BAD_VERSIONS = [b'HTTP/2.0', b'HTTP/0.9', b'HTTP/1.9', b'HTTP/12.34', b'HTTP/1x1', b'HTTP/1', b'http/1.1', b'HTTP/3.7',
                 b'HTTP/\\u0661.\\u0661', b'HTTP/1.', b'HTTP/.1', b'HTTP/1.1 ', b'HTTP/9.9']
-BAD_CLEN = [b'abc', b'-5', b'99999999999999999999999', b'+5', b' 5 ', b'0x10', b'5, 5', b'', b'5.0', b'1e3', b'\\x35', b'-0', b'\xd9\xa5']
+BAD_CLEN = [b'abc', b'-5', b'99999999999999999999999', b'+5', b' 5 ', b'0x10', b'5, 5', b'', b'5.0', b'1e3', b'\\x35', b'-0', b'\xd9\xa5',
+            b'1x', b'5, 6', b'5;q', b'3 3']
 BAD_CHUNK = [b'zz', b'-5', b'', b'1g', b'ffffffffffffffffffffff', b' 5', b'5 ;x', b'0x5', b';', b'+3']
 ESCAPES = [b'\\x', b'\\N{bad}', b'\\u12', b'\\U99999999', b'\\', b'\\xZZ', b'\\N{', b'\\777', b'\\x41', b'\\r\\n', b'\\u000d\\u000a']
 BAD_HOSTS = [b'h:abc', b'h:', b':80', b'[::1]:x', b'h:99999999999', b'h:-1', b'h:8000:9', b'', b' ', b'h:\\x']
@@ -853,6 +980,48 @@ FIXED = [
 ]
 
 
+# directed: invalid Content-Length framing x where the body bytes arrive (clause (v)).  %N = length of the body that
+# follows (5 if none), %M = %N + 1.  The second group is the leniency that is documented and NOT judged.
+CLEN_JUDGED = [[b'abc'], [b'1x'], [b'%N', b'%M'], [b'%M', b'%N'], [b'%N, %M'], [b''], [b'0x10'], [b'5.0'], [b'1e3'], [b'%N %N'],
+               [b'abc', b'%N'], [b'%N', b'abc'], [b'%N;q=1'], [b'%N,']]
+CLEN_UNJUDGED = [[b'-5'], [b'-0'], [b'-%N'], [b'+%N'], [b'%N', b'%N'], [b'%N, %N'], [b'%N']]
+CLEN_HEADS = [b'POST / HTTP/1.1\r\nHost: h\r\n', b'POST /a HTTP/1.0\r\nConnection: keep-alive\r\n', b'GET /x?y=1 HTTP/1.1\r\nHost: h\r\nAccept: */*\r\n']
+CLEN_BODIES = [b'', b'hello', b'hello\r\n\r\n', b'GET /evil HTTP/1.1\r\nHost: h\r\n\r\n']
+
+
+def directed_clen(rng):
+    cases = []
+    for vals in CLEN_JUDGED + CLEN_UNJUDGED:
+        tag = 'clen-invalid' if vals in CLEN_JUDGED else 'clen-lenient'
+        for h in CLEN_HEADS:
+            for body in CLEN_BODIES:
+                n = len(body) or 5
+                fields = [v.replace(b'%N', b'%d' % n).replace(b'%M', b'%d' % (n + 1)) for v in vals]
+                head = h + b''.join(b'Content-Length: ' + v + CRLF for v in fields) + CRLF
+                k = rng.randint(1, len(head) - 1)
+                ways = [('no-body', [head])] if not body else [
+                    ('body-same-read', [head + body]), ('body-later-read', [head, body]),
+                    ('head-cut+body-later', [head[:k], head[k:], body]), ('body-cut', [head + body[:2], body[2:]])]
+                for how, segs in ways:
+                    cases.append({'kind': 'conn', 'beh': 'ok', 'secure': 0, 'steps': close_script(script(rng, segs)),
+                                  'ops': ['directed', tag, how]})
+                if rng.random() < 0.3:
+                    how, segs = rng.choice(ways)
+                    cases.append({'kind': 'conn', 'beh': rng.choice(['raise', 'http403', 'badbody', 'ok']), 'secure': 0,
+                                  'steps': close_script(script(rng, segs, queued=rng.random() < 0.5)),
+                                  'ops': ['directed', tag, how, 'variant']})
+    # on a kept-alive connection after a well-formed request
+    good = b'GET /first HTTP/1.1\r\nHost: h\r\n\r\n'
+    for vals in CLEN_JUDGED:
+        body = rng.choice(CLEN_BODIES[1:])
+        n = len(body)
+        fields = [v.replace(b'%N', b'%d' % n).replace(b'%M', b'%d' % (n + 1)) for v in vals]
+        head = CLEN_HEADS[0] + b''.join(b'Content-Length: ' + v + CRLF for v in fields) + CRLF
+        cases.append({'kind': 'conn', 'beh': 'ok', 'secure': 0, 'steps': close_script(script(rng, [good, head, body])),
+                      'ops': ['directed', 'clen-invalid', 'keepalive', 'body-later-read']})
+    return cases
+
+
 def cut(rng, data, k):
     if len(data) < 2 or k <= 0:
         return [data]
@@ -880,6 +1049,7 @@ def gen_cases(ctx):
     for msg, beh in FIXED:
         cases.append({'kind': 'conn', 'beh': beh, 'secure': 0, 'steps': close_script(script(rng, [msg])), 'ops': ['fixed']})
         cases.append({'kind': 'conn', 'beh': beh, 'secure': 0, 'steps': close_script(script(rng, [msg], queued=True)), 'ops': ['fixed', 'queued-disconnect']})
+    cases += directed_clen(rng)
     bases = list(c13.FIXED_REQUESTS) + [c13.gen_request(rng, maxbody=30) for _ in range(4 * sc)]
     for msg in bases[: (10 if sc == 1 else 40)]:
         offs = range(1, len(msg)) if len(msg) < 90 or sc > 1 else sorted(rng.sample(range(1, len(msg)), 60))
@@ -907,6 +1077,11 @@ def gen_cases(ctx):
             continue
         beh = rng.choice(['ok'] * 8 + ['raise', 'http403', 'badbody'])
         segs = cut(rng, msg, rng.choice([0, 0, 1, 2, 3]))
+        j = msg.find(CRLF2)
+        if 'content-length' in names and 0 < j + 4 < len(msg) and rng.random() < 0.5:
+            # header block and body in separate reads
+            segs = cut(rng, msg[:j + 4], rng.choice([0, 0, 1])) + cut(rng, msg[j + 4:], rng.choice([0, 0, 1]))
+            names.append('body-later-read')
         steps = script(rng, segs, queued=rng.random() < 0.25)
         r = rng.random()
         if r < 0.15 and len(steps) > 1:
@@ -962,7 +1137,15 @@ def run(ctx):
                 'applied) + truncation at every offset of base messages + TLS/SSLv2 hello prefixes on plain and secure '
                 'servers + keep-alive sequences ending in a mutated request + two interleaved connections; 0-3 random cuts; '
                 'disconnect at the end, in the middle, or queued together with the last read; handler behaviours ok / raise / '
-                'HTTPException / unencodable body. non-trivial = every case; distinct = distinct scripts')
+                'HTTPException / unencodable body; directed: invalid Content-Length framing (non-decimal value, two '
+                'different values, one list-valued field; and the lenient shapes -n, +n, repeated identical as unjudged '
+                'controls) x 3 request heads x header block and body in the same read / in separate reads / header block '
+                'cut / body cut / no body at all, also after a well-formed request on the same connection, and random '
+                'Content-Length mutations delivered with the body in a later read. Clause (v) '
+                '(malformed-dispatched(content-length), body-parsed-as-request) is a spec-on-impl clause: it is evaluated by '
+                'the harness (strict_head, an RFC 7230 3.3.2/3.3.3 reading of the delivered bytes) on the implementation\'s '
+                'request/write/close events only; the Lean model takes no part in it (histogram framing_oracle = judged '
+                'messages). non-trivial = every case; distinct = distinct scripts')
     ctx.trusted += [
         'leaf functions (unicode_escape, regexes, urlsplit, Headers, int, wrappers.Request constructor, path guard) and '
         'which inputs make them raise are parameters of the model; instantiated per case by calling them separately',
@@ -976,6 +1159,11 @@ def run(ctx):
         'not judged (the statement allows waiting): lenient acceptance (negative Content-Length = no body), a bad chunk size '
         'after complete headers and a TLS 1.x ClientHello (16 03 0x ..., compared with str literals in is_ssl_handshake) '
         'make the component wait for ever instead of answering 400 / closing',
+        'clause (v) judges only Content-Length framing that the unchanged code rejects: not judged are values Python\'s int() '
+        'accepts although RFC 7230 does not (-5 and -0 = no body, +5, 1_0: the unchanged code dispatches these), repeated '
+        'identical values (rejected by the code, collapsible per RFC), any message with Transfer-Encoding, header blocks '
+        'with escapes / folding / non-token names / control or high bytes, and messages whose start on the connection is '
+        'not known from strict framing of what came before',
         'reads that a real server could still deliver between close(sock) and the disconnect are not explored',
     ]
     if not ctx.searching:
